@@ -187,6 +187,8 @@ def enum_table(tier):
                         yield {"step": step, "state": state, "err": err, "subset": subset, "order": order, "decode": style, "k": SEED * 31 + (i % 5)}
 
 
+from props.ble_layers import C04_BLE_LAYERS  # noqa: E402
+
 SPEC = Property(
     P, "fault_enumeration",
     rule=("decision table: step in {setup M2, M4, M6; verify M2, M4} x state in {absent, expected, every other value 0..7} x error in "
@@ -197,6 +199,7 @@ SPEC = Property(
     layers=[
         Layer("protocol-table", run_cell, enumerate=enum_table, exhaustive=True,
               space="5 steps x 9 states x 13 errors x 2^|other fields| x 4 (order, decode) combinations (quick: 2 combinations for setup M4/M6)", min_nontrivial=3000),
+        *C04_BLE_LAYERS,
     ],
     assumptions=["fields not defined for a step are not generated before State/Error (tests/test_protocol_tlv.py::test_filter pins the "
                  "expected-filter as stop-at-first-unexpected)",
